@@ -56,6 +56,11 @@ def graphs(tier):
     for xr in (exprs3('a', 'b', 'c') if tier != 'quick' else [None, ('ANDOR', ['a', 'b', 'c']), ('ONEOF', ['a', 'b', 'c']), ('AND', ['a', 'b', 'c']), ('ANDOR', [('ONEOF', ['a', 'b']), 'c'])]):
         for xa in (None, ('ONEOF', ['a1', 'a2'])):
             yield 'tree3x', cxref.Graph({'r': E(expr=xr), 'a': E(['r'], expr=xa), 'b': E(['r']), 'c': E(['r']), 'a1': E(['a']), 'a2': E(['a']), 'b1': E(['b']), 'c1': E(['c'])})
+    # several entities with more than one supertype whose sets of root hierarchies differ: roots a, b, c; m(a, b), n(b, c)[, p(a, c)]
+    yield 'mi2roots', cxref.Graph({'a': E(), 'b': E(), 'c': E(), 'm': E(['a', 'b']), 'n': E(['b', 'c'])})
+    yield 'mi2roots', cxref.Graph({'a': E(), 'b': E(), 'c': E(), 'n': E(['a', 'b']), 'm': E(['b', 'c'])})
+    yield 'mi3roots', cxref.Graph({'a': E(), 'b': E(), 'c': E(), 'm': E(['a', 'b']), 'n': E(['b', 'c']), 'p': E(['a', 'c'])})
+    yield 'mi2roots-chain', cxref.Graph({'a': E(), 'b': E(), 'c': E(), 'd': E(), 'm': E(['a', 'b']), 'n': E(['c', 'd']), 'q': E(['m', 'n'])})
     yield 'abstower', cxref.Graph({'r': E(abstract=True), 'a': E(['r'], abstract=True), 'a1': E(['a'])})
     yield 'abstower2', cxref.Graph({'r': E(abstract=True, expr=('ONEOF', ['a', 'b'])), 'a': E(['r'], abstract=True), 'b': E(['r']), 'a1': E(['a'])})
     if tier == 'thorough':
